@@ -257,6 +257,10 @@ func memoKey(typ string, sites []site, seed []byte, m mutation) (key, shape stri
 				}
 			}
 			switch v := binary.LittleEndian.Uint32(f[:]); {
+			case m.Off < s.Off || m.Off+m.W > s.Off+4:
+				// the window also rewrites a neighbouring field: what the decoder reads as this
+				// length is no longer certain
+				shape = s.Class + "/straddling"
 			case v >= 0x80000000:
 				shape = s.Class + "/len<0"
 			case v > 0xffff:
